@@ -227,20 +227,22 @@ def outputOrder (index : PSlice) (d : List (Nat × PSlice)) : List (Nat × PSlic
 def ceilDiv (a b : Int) : Int :=
   if 0 < b then -((-a) / b) else if b < 0 then -(a / (-b)) else 0
 
-/-- `new_blockdim(dim_shape, lengths, index)` for a slice `index`;
-    `none` only if a slice lacked a field or named a missing block (cannot happen, kept explicit). -/
+/-- size of one planned piece as `new_blockdim` computes it: `ceil((stop - start) / step)` after replacing
+    `:` by `0:len:1`; `none` only if a slice lacked a field or named a missing block (cannot happen, kept explicit) -/
+def itemSize (lengths : List Nat) (item : Nat × PSlice) : Option Int :=
+  if item.2 = colon then
+    match lengths[item.1]? with
+    | some l => some (ceilDiv ((l : Int) - 0) 1)
+    | none => none
+  else
+    match item.2.start, item.2.stop, item.2.step with
+    | some a, some b, some st => if st = 0 then none else some (ceilDiv (b - a) st)
+    | _, _, _ => none
+
+/-- `new_blockdim(dim_shape, lengths, index)` for a slice `index` -/
 def newBlockdim (dimShape : Nat) (lengths : List Nat) (index : PSlice) : Option (List Int) :=
   if index = colon then some (lengths.map (fun (l : Nat) => (l : Int)))
-  else
-    (outputOrder index (slice1d dimShape lengths index)).mapM fun (i, slc) =>
-      if slc = colon then
-        match lengths[i]? with
-        | some l => some (ceilDiv ((l : Int) - 0) 1)
-        | none => none
-      else
-        match slc.start, slc.stop, slc.step with
-        | some a, some b, some st => if st = 0 then none else some (ceilDiv (b - a) st)
-        | _, _, _ => none
+  else (outputOrder index (slice1d dimShape lengths index)).mapM (itemSize lengths)
 
 /-! ## Denotation of a plan: which global positions each output block reads -/
 
